@@ -30,7 +30,11 @@ import (
 // ---- interception -------------------------------------------------------------------------------------------
 
 // tick is called at the start of every intercepted query.
-func (c *cluster) tick(string) {
+func (c *cluster) tick(name string) {
+	if g := c.gate; g != nil {
+		g.Gate("query", name) // parks a registered worker until the gate scheduler releases it
+		g.Done("query", name)
+	}
 	if c.injectIn > 0 {
 		c.injectIn--
 		if c.injectIn == 0 && c.inject != nil {
@@ -285,7 +289,7 @@ func (c *cluster) mutate(rng *rand.Rand, s *stats, allowShape bool) {
 		}
 		extra := map[string]string{}
 		if rng.Intn(4) != 0 {
-			extra["disk"] = []string{"hdd", "ssd", "nvme"}[rng.Intn(3)]
+			extra[spell(rng, "disk")] = spell(rng, []string{"hdd", "ssd", "nvme"}[rng.Intn(3)])
 		}
 		if rng.Intn(6) == 0 {
 			extra["noleader"] = "true"
@@ -312,7 +316,10 @@ func (c *cluster) mutate(rng *rand.Rand, s *stats, allowShape bool) {
 			}
 			p := add[0]
 			if w.Grant != 0 {
-				if lbl := w.store(w.Grant).allLabels(); lbl[p.Key] == p.Value {
+				trial := w.clone()
+				trial.RejectLeader = append(trial.RejectLeader, p)
+				g := trial.store(w.Grant)
+				if rej, _ := trial.rejects(g); rej || trial.rejectsAmbiguously(g) {
 					return // would make the granted store refuse leaders: contradictory setup
 				}
 			}
